@@ -15,6 +15,7 @@ import (
 	"go/printer"
 	"go/token"
 	"path"
+	"regexp"
 	"strconv"
 	"strings"
 )
@@ -129,14 +130,62 @@ func c02FirstDiag(diag string) string {
 		}
 		// <file>:<line>:<col>: message
 		parts := strings.SplitN(line, ": ", 2)
-		msg := line
+		msg, where := line, ""
 		if len(parts) == 2 && strings.Contains(parts[0], ".go:") {
 			msg = parts[1]
+			file := parts[0][:strings.Index(parts[0], ".go:")]
+			switch {
+			case strings.HasSuffix(file, "types_gen"):
+				where = ":in-types"
+			case strings.HasSuffix(file, "_builder_gen"):
+				where = ":in-builder"
+			case strings.HasSuffix(file, "_converter_gen"):
+				where = ":in-converter"
+			case strings.HasSuffix(file, "frag"):
+				where = ""
+			default:
+				where = ":in-other"
+			}
 		}
-		return c02NormDiag(msg)
+		return c02NormDiag(msg) + where
 	}
 	return ""
 }
+
+// c02TypeShape abstracts a Go type text from a diagnostic: generated names become T
+func c02TypeShape(t string) string {
+	var b strings.Builder
+	i := 0
+	for i < len(t) {
+		c := t[i]
+		if c >= 'A' && c <= 'Z' || c >= 'a' && c <= 'z' || c == '_' {
+			j := i
+			for j < len(t) && (c02IsWordByte(t[j]) || t[j] == '.') {
+				j++
+			}
+			word := t[i:j]
+			switch word {
+			case "string", "bool", "int", "int8", "int16", "int32", "int64", "uint", "uint8", "uint16", "uint32", "uint64", "float32", "float64", "any", "byte", "map", "interface", "struct", "func", "error":
+				b.WriteString(word)
+			default:
+				b.WriteString("T")
+			}
+			i = j
+			continue
+		}
+		if c != ' ' {
+			b.WriteByte(c)
+		}
+		i++
+	}
+	s := b.String()
+	if len(s) > 40 {
+		s = s[:40]
+	}
+	return s
+}
+
+var c02CannotUseRe = regexp.MustCompile(`of type ([^)]+)\) as (.+?) value`)
 
 func c02NormDiag(msg string) string {
 	switch {
@@ -160,6 +209,9 @@ func c02NormDiag(msg string) string {
 	case strings.Contains(msg, "untyped float constant") && strings.Contains(msg, "cannot use"):
 		return "cannot-use:untyped-float-constant"
 	case strings.Contains(msg, "cannot use"):
+		if m := c02CannotUseRe.FindStringSubmatch(msg); m != nil {
+			return "cannot-use:" + c02TypeShape(m[1]) + "-as-" + c02TypeShape(m[2])
+		}
 		return "cannot-use"
 	case strings.Contains(msg, "mismatched types"):
 		return "mismatched-types"
